@@ -13,19 +13,34 @@ partial def readAll (h : IO.FS.Stream) (acc : String) : IO String := do
   if l.isEmpty then return acc else readAll h (acc ++ l)
 
 def countEvents (evs : List String) : String :=
-  let names := ["capture", "invoke", "leave", "reenter", "enter", "exit", "exit-error", "handled", "reset", "shift", "dinvoke", "d12", "mc-cross", "orphan-invoke", "raise-through-left-extent", "raw-invoke"]
+  let names := ["capture", "invoke", "leave", "reenter", "enter", "exit", "exit-error", "handled", "reset", "shift", "dinvoke", "d12", "mc-cross", "orphan-invoke", "raise-through-left-extent", "raw-invoke", "cross-eval-invoke"]
   ",".intercalate (names.map fun n => s!"{n}={(evs.filter (· == n)).length}")
 
+/-- A program is a sequence of pieces separated by lines `;;;---` (usually one): every piece is one evaluation on
+the same state, like forms typed into a REPL.  In a history (more than one piece) a piece that ends with an
+uncaught error contributes the pseudo value `!err` — the values of its earlier forms are not reported — and
+the next piece runs on, in the state the failed piece left. -/
 def runProgram (impl : Bool) (st0 : St) (src : String) : String :=
-  match Reader.read src with
-  | none => "\u001eB\n\n\u001eE syntax"
-  | some forms =>
-    let (vals, outcome, st) := evalProgram impl 3000000 forms st0
-    let out := String.join st.out.reverse
-    let evs := countEvents st.events
-    match outcome with
-    | none => s!"\u001eB\n{out}\n\u001eV {"\u001f".intercalate vals}\n\u001eC {evs}"
-    | some o => s!"\u001eB\n{out}\n\u001eE {o}\n\u001eC {evs}"
+  let pieces := src.splitOn "\n;;;---\n"
+  let history := pieces.length > 1
+  let rec go (ps : List String) (st : St) (vals : List String) : List String × Option String × St :=
+    match ps with
+    | [] => (vals, none, st)
+    | p :: rest =>
+      match Reader.read p with
+      | none => (vals, some "syntax", st)
+      | some forms =>
+        let (vs, outcome, st') := evalProgram impl 3000000 forms { st with pieceBase := st.nextId }
+        match outcome with
+        | none => go rest st' (vals ++ vs)
+        | some "err" => if history then go rest st' (vals ++ ["!err"]) else (vals ++ vs, some "err", st')
+        | some o => (vals ++ vs, some o, st')
+  let (vals, outcome, st) := go pieces st0 []
+  let out := String.join st.out.reverse
+  let evs := countEvents st.events
+  match outcome with
+  | none => s!"\u001eB\n{out}\n\u001eV {"\u001f".intercalate vals}\n\u001eC {evs}"
+  | some o => s!"\u001eB\n{out}\n\u001eE {o}\n\u001eC {evs}"
 
 def mainC08 (args : List String) : IO Unit := do
   let src ← readAll (← IO.getStdin) ""
